@@ -1,5 +1,6 @@
 import Andes.Model.Hex
 import Andes.Model.TdsDriver
+import Andes.Model.SolverCacheDriver
 import Andes.Model.DiscreteDriver
 import Andes.Model.NewtonDriver
 /-! One case per input line, one canonical output line; the first word selects the model. -/
@@ -13,6 +14,7 @@ def handle (line : String) : String :=
   | "stp" :: args => Andes.Newton.handleStp args
   | "cli" :: args => Andes.Newton.handleCli args
   | "disc" :: op :: args => Andes.Discrete.handleDisc op args
+  | "slv" :: args => Andes.SolverCache.handleSlv args | "pfs" :: args => Andes.SolverCache.handlePfs args | "tdi" :: args => Andes.SolverCache.handleTdi args
   | _ => "bad-op"
 
 partial def loop (h : IO.FS.Stream) : IO Unit := do
